@@ -344,6 +344,42 @@ fn call_sequences(src: &mut Src, st: &mut Stats, _env: &Env) -> CaseResult {
     Ok(())
 }
 
+/// Calls whose arguments satisfy the signature, with arbitrary representatives
+/// of each accepted type (strings that look like numbers or other JSON texts
+/// included): never a signature error, result inside the declared type.
+fn well_typed(src: &mut Src, st: &mut Stats, _env: &Env) -> CaseResult {
+    use crate::gen_typed::gen_value_of;
+    use crate::refeval::SIGS;
+    let plain: Vec<&crate::refeval::Sig> = SIGS.iter().filter(|s| !s.params.iter().any(|p| p.contains(&Ty::Expref))).collect();
+    let sig = plain[src.below(plain.len())];
+    let mut doc = std::collections::BTreeMap::new();
+    let mut args = vec![];
+    let mut n = sig.params.len();
+    if sig.variadic.is_some() {
+        n += src.below(4);
+    }
+    for i in 0..n {
+        let tys: &[Ty] = if i < sig.params.len() { sig.params[i] } else { sig.variadic.unwrap() };
+        let t = tys[src.below(tys.len())];
+        let v = gen_value_of(src, t);
+        if src.chance(60) && !matches!(v, J::Num(crate::model::N::F(_))) {
+            args.push(crate::print::spell_literal(&v, &mut crate::print::Spell::plain()));
+        } else {
+            doc.insert(format!("a{}", i), v);
+            args.push(format!("a{}", i));
+        }
+    }
+    doc.insert("pad".to_string(), J::int(1));
+    let expr = format!("{}({})", sig.name, args.join(", "));
+    let dt = J::Obj(doc).to_json();
+    st.eval();
+    check_cell("well-typed", &expr, &dt, st)?;
+    if st.nontrivial(&format!("{}\u{0}{}", expr, dt)) {
+        st.sample(|| json!({"expression": expr, "document": dt}));
+    }
+    Ok(())
+}
+
 fn replay_cell(case: &Value, _env: &Env) -> CaseResult {
     let mut st = Stats::new();
     check_cell("table", case["expression"].as_str().unwrap_or(""), case["document"].as_str().unwrap_or("null"), &mut st)
@@ -362,6 +398,7 @@ pub fn property() -> Property {
         subs: vec![
             Sub::Custom(CustomSub { name: "table", run: table, replay: replay_cell }),
             Sub::Custom(CustomSub { name: "wide-arity", run: wide_arity, replay: replay_wide }),
+            Sub::Bytes(BytesSub { name: "well-typed", f: well_typed, max_len: 1500, quick: Budget { threads: 8, cases: 4000 }, thorough: Budget { threads: 16, cases: 150_000 }, keep_unreproducible: false }),
             Sub::Bytes(BytesSub { name: "call-sequences", f: call_sequences, max_len: 2000, quick: Budget { threads: 8, cases: 2500 }, thorough: Budget { threads: 16, cases: 100_000 }, keep_unreproducible: false }),
         ],
     }
